@@ -123,8 +123,9 @@ class Exec(Engine):
             else:
                 nv = fresh("V", nm)
                 metas = [v.meta for v in vals if v.k == "V" and v.meta]
-                if metas and len(metas) == len(vals) and all(m == metas[0] for m in metas):
-                    nv.meta = dict(metas[0])
+                if metas and len(metas) == len(vals):
+                    common = {k_: v_ for k_, v_ in metas[0].items() if k_ in ("coll", "seq") and all(m.get(k_) == v_ for m in metas)}
+                    nv.meta = common
                 env[nm] = nv
         ns.env = env
         sf = fr.sub(st=ns, spec=True)
@@ -646,7 +647,8 @@ class Exec(Engine):
                     kind = "obj:" + old.meta.get("cls")
                 nv = fresh(kind, nm)
                 if old.k == "V" and old.meta:
-                    nv.meta = dict(old.meta)
+                    # only the collection *kind* survives a havoc, never facts about the content
+                    nv.meta = {k_: v_ for k_, v_ in old.meta.items() if k_ in ("coll", "seq")}
                 st.env[nm] = nv
             else:
                 st.env.pop(nm, None)
